@@ -1,4 +1,5 @@
 import GlyProofs.Front.Accept
+import GlyProofs.Front.ParseComplete
 /-
   C15 — What is accepted is exactly the published grammar.  (Property theorems only.)
 -/
@@ -26,6 +27,38 @@ theorem C15_accept_sound (s : List Char) (h : Model.accepts s = true) :
 theorem C15_parse_sound (g : Grammar) (fuel : Nat) (e : Rx) (inp : List Token) (k : List PT) (r : List Token)
     (h : (k, r) ∈ parseRx g fuel e inp) : inp = PT.yieldList k ++ r ∧ Derives g e (PT.yieldList k) :=
   parseRx_sound g fuel e inp k r h
+
+/-- Completeness of the generic parser for ample fuel: whatever the grammar derives is found, for every continuation. -/
+theorem C15_parse_complete (g : Grammar) (e : Rx) (w : List Token) (h : Derives g e w) :
+    ∃ N, ∀ fuel, N ≤ fuel → ∀ r, ∃ k, (k, r) ∈ parseRx g fuel e (w ++ r) :=
+  parseRx_complete g h.normalize
+
+/-- **Accepted iff derivable**: for the grammar as regenerated from Glycan.g4, the recogniser accepts `s` for some fuel
+    if and only if `#s#` tokenises by longest match and the whole token stream is a sentence of the start rule. -/
+theorem C15_accept_iff (s : List Char) :
+    (∃ fuel, Model.acceptsAny fuel s = true) ↔
+    ∃ ts, lex Gen.lexRules (Model.sentinel s) = some ts ∧ Derives Gen.grammar (.ref 0) ts := by
+  constructor
+  · rintro ⟨fuel, h⟩
+    unfold Model.acceptsAny at h
+    cases hl : lex Gen.lexRules (Model.sentinel s) with
+    | none => simp [hl] at h
+    | some ts =>
+      simp only [hl, List.any_eq_true] at h
+      obtain ⟨⟨k, r⟩, hm, hr⟩ := h
+      have hr' : r = [] := by simpa using hr
+      subst hr'
+      have := parseRx_sound _ _ _ _ _ _ hm
+      refine ⟨ts, rfl, ?_⟩
+      have e : ts = PT.yieldList k := by simpa using this.1
+      rw [e]; exact this.2
+  · rintro ⟨ts, hl, hd⟩
+    obtain ⟨N, hN⟩ := parseRx_complete Gen.grammar hd.normalize
+    obtain ⟨k, hk⟩ := hN N (Nat.le_refl _) []
+    refine ⟨N, ?_⟩
+    unfold Model.acceptsAny
+    simp only [hl, List.any_eq_true]
+    exact ⟨(k, []), by simpa using hk, by simp⟩
 
 /-- Non-vacuity: the Model accepts a branched glycan and rejects trailing text after the closing sentinel. -/
 theorem C15_examples :
